@@ -87,6 +87,16 @@ func runC19(e *Env) error {
 			e.Add(Case{Coq: fmt.Sprintf("CMinMax %d %d %d %d", a, b, mn, mx), Kind: "minmax", NonTrivial: a != b, JSON: map[string]interface{}{"fn": "MinU64/MaxU64", "a": fmt.Sprint(a), "b": fmt.Sprint(b), "min": fmt.Sprint(mn), "max": fmt.Sprint(mx)}})
 		}
 	}
+	// IntegerSquareRootPrysm (table + float64 estimate): judged against floor sqrt only (no Impl model of float64)
+	prysm := append([]uint64{4, 16, 64, 256, 1024, 4096, 16384, 65536, 262144, 1048576, 4194304, 5, 15, 17, 4194303, 4194305,
+		4503599761588222, 4503599761588223, 4503599761588224, 4503599761588225, 4503599627370495, 4503599627370496}, vals...)
+	for i, n := range prysm {
+		if i > 3000 {
+			break
+		}
+		g := zmath.IntegerSquareRootPrysm(n)
+		e.Add(Case{Coq: fmt.Sprintf("CIsqrtPrysm %d %d", n, g), Kind: "isqrt_prysm", NonTrivial: nt(n), JSON: map[string]interface{}{"fn": "IntegerSquareRootPrysm", "n": fmt.Sprint(n), "go": fmt.Sprint(g)}})
+	}
 	for _, n := range vals {
 		var res uint64
 		p, _ := Catch(func() { res = zmath.IntegerSquareroot(n) })
